@@ -57,7 +57,8 @@ pub fn draw_case(prop: &str, engine: &str, seed: u64, tier: &str) -> Case {
     if prop == "C12" {
         // commit counts 0..6, one in four on a legacy-header file; small pages in quick
         let n = r.below(7);
-        c.extra = serde_json::json!({"commits": n, "legacy": r.chance(1, 4), "thorough": tier == "thorough"});
+        let legacy = r.chance(1, 4);
+        c.extra = serde_json::json!({"commits": n, "legacy": legacy, "upgrade": legacy && r.chance(1, 2), "thorough": tier == "thorough"});
         c.pagesize = if tier == "thorough" { *r.pick(&[1024, 1024, 2048, 4096]) } else { 1024 };
         c.strict = false;
     }
